@@ -51,12 +51,14 @@ MANIFEST_ENTRY = {
              "client version in {absent, 1.0, 2.0}, client and server configuration versions in {1.0, 2.0} and class translation on or "
              "off, a proxy call enters the callable exactly once with the normalised arguments, returns exactly the normalised return "
              "value, and appends exactly one request and one response to the History; a notification returns None and is answered by the "
-             "empty text. The composition is checked against the real ServerProxy / MultiCall / History and the real servers "
+             "empty text; a MultiCall batch enters every job's callable once in job order and yields the results of its calls in job "
+             "order. The composition is checked against the real ServerProxy / MultiCall / History and the real servers "
              "(loopback dispatcher, TCP, pooled TCP, Unix socket) on every run."),
-    "note": ("PARTIAL: the theorems cover single calls and notifications (positional and keyword) through registered functions; MultiCall "
-             "batches, dotted instance paths and failing calls are in the executable model and in the correspondence / oracle but have no "
-             "general theorem of their own here (their server half is C03/C05, their client half C06). Server classes and transports are "
-             "covered by correspondence only: the model treats a byte-faithful transport as the identity on texts."),
+    "note": ("The theorems cover single calls, notifications, call sequences and MultiCall batches (calls and notifications "
+             "interleaved) through registered functions; dotted INSTANCE paths and failing calls are in the executable model and in the "
+             "correspondence / oracle but have no general theorem of their own here (their server half is C03/C05, their client half "
+             "C06). PARTIAL in one respect: server classes and transports are covered by correspondence only, the model treats a "
+             "byte-faithful transport as the identity on texts."),
     "technique": "Coq proof over a hand-written executable model (composition of three models) + differential correspondence check (vm_compute) over four real transports + property oracle",
     "design_ref": "DESIGN.md 4/C01",
 }
